@@ -124,6 +124,13 @@ def doneNoWriteX (sameNet : Bool) (m : Mem) (o : XOut G) : Bool :=
 def convergesX (streak bound : Nat) (o : XOut G) : Bool :=
   if streak ≥ bound then o.done || o.err else true
 
+/-- **C05 / C06** a call in which an API read failed with an error other than NotFound never reports
+    completion: it returns the error (`done = true` of the done-style calls and `retry = false` of the
+    retry-style calls both require `err = false`), so the clean-up cursor cannot advance past a resource that
+    could not be read, let alone restored. -/
+def readFaultReportedX (readFailed : Bool) (o : XOut G) : Bool :=
+  if readFailed then o.err else true
+
 /-! ## the specs of the three real providers -/
 
 section concrete
@@ -232,6 +239,6 @@ def cleanB (p : PCfg) (g : CNet) : Bool :=
     member was called: its objects afterwards (`after`) are what its own `EnsureRoutes` makes of its objects
     before (`before`).  Judged per member on the objects alone (`same` compares two states of the member). -/
 def memberRanB {G₁ : Type} (P : Provider Strat G₁) (same : G₁ → G₁ → Bool) (s : Strat) (before after : G₁) : Bool :=
-  same (P.ensure none before s).g after
+  same (P.ensure Api.ok before s).g after
 
 end RV.Oracle.TrafficX
